@@ -301,7 +301,7 @@ theorem C05_nothing_lost (b : Bar) (force : Bool) (now : Nat) (tt : TermTarget) 
     rw [hdr] at hgo
     simp only at hgo
     subst hgo
-    simp
+    simp [DrawState.after]
 
 end IndicatifModel
 
